@@ -230,4 +230,7 @@ func mainSelftest(args []string) int { return 2 }
 func init() {
 	PropRules["C08"] = []string{"TOK-1", "TOK-2", "TOK-3", "TOK-4", "TOK-5", "TOK-6", "TOK-8"}
 	PropRules["C01"] = []string{"ORD-1", "ORD-2", "ORD-3", "ORD-5"}
+	PropRules["C04"] = []string{"ORD-4", "ORD-6", "ORD-8"}
+	PropRules["C05"] = []string{"OWN-1", "OWN-2", "OWN-3", "OWN-4", "OWN-5", "OWN-6", "OWN-7"}
+	PropRules["C13"] = []string{"COD-1", "COD-12", "COD-2", "COD-3", "COD-4"}
 }
